@@ -13,6 +13,10 @@ Decided statically (necessary conditions; DESIGN.md §3/C15) — queue disciplin
               exception are themselves checked.
   CHAIN       validated_seq_join: each item is followed by validate_record(index) of its own index
               and the validator is kept alive until the stream ends; try_join is seq_join+try_collect.
+  JOIN-parallel  parallel_join: the single-threaded variant is futures::try_join_all (not join_all);
+              the spawner-based variant awaits one task result at a time (`next`), applies `?` to it
+              before awaiting the next one (first error returned as soon as it is available, not after
+              every other task has finished) and pushes the Ok value in arrival (= spawn) order.
 Configuration M (multi-threading) has its own spawner-based implementation: WAKE-1 and the refill
 condition are checked there too (thorough tier).
 """
@@ -39,6 +43,7 @@ def run(ctx):
     else:
         ctx.missing("WHO-queue", "SequentialFutures::poll_next")
     chain(ctx, facts)
+    parallel(ctx, facts)
 
 
 def deque_calls(facts, b):
@@ -253,3 +258,60 @@ def chain(ctx, facts):
     else:
         cs = [F.callee(t)[0] or "" for _, t in stj.calls()]
         ctx.ob("CHAIN", "try_join=seq_join+try_collect", "seq_join::seq_join" in cs and any(c.endswith("TryStreamExt::try_collect") for c in cs), "seq_try_join_all = seq_join(..).try_collect()", site_of(stj))
+
+
+INCREMENTAL = re.compile(r"(StreamExt::next|TryStreamExt::try_next|TryStreamExt::try_collect|TryStreamExt::try_for_each|TryStreamExt::try_fold)$")
+DRAIN = re.compile(r"(Scope::<'a, T, Sp>::collect|StreamExt::collect|StreamExt::for_each|StreamExt::fold|future::join_all|StreamExt::count)$")
+
+
+def parallel(ctx, facts):
+    ctx.rule("JOIN-parallel: SeqJoin::parallel_join is futures::try_join_all (config without multi-threading) or multi_thread::parallel_join whose future awaits the spawner one result at a time, propagates an Err with `?` before awaiting another result (no path from a result's arrival to the error return crosses another suspension point), and pushes each Ok value, in arrival order, into the returned Vec")
+    top = facts.bodies.get("seq_join::SeqJoin::parallel_join")
+    if top is None:
+        return ctx.missing("JOIN-parallel", "SeqJoin::parallel_join")
+    ctx.count(bodies=1)
+    names = [F.callee(t)[0] or "" for _, t in top.calls()]
+    mt = [n for n in names if n.endswith("multi_thread::parallel_join")]
+    if not mt:
+        ok = any(n.endswith("future::try_join_all") for n in names) and not any(n.endswith("future::join_all") for n in names)
+        ctx.ob("JOIN-parallel", "single-thread:try_join_all", ok, "try_join_all resolves with the first error" if ok else "parallel_join is not built on try_join_all (an error no longer ends the join)", site_of(top))
+        return
+    fut = [b for b in facts.tree("seq_join::multi_thread::parallel_join") if b.coroutine]
+    if len(fut) != 1:
+        return ctx.missing("JOIN-parallel", "async block of multi_thread::parallel_join")
+    b = fut[0]
+    ctx.count(bodies=1)
+    awaited = []
+    for bb, t in b.calls():
+        n = F.callee(t)[0] or ""
+        st = flow.settled(b, bb)
+        if st is not None and not re.search(r"(IntoFuture::into_future|Pin::<Ptr>::new_unchecked|future::get_context|Future::poll)$", n):
+            awaited.append((bb, t, n, st))
+    drains = [a for a in awaited if DRAIN.search(a[2])]
+    unknown = [a for a in awaited if not DRAIN.search(a[2]) and not INCREMENTAL.search(a[2])]
+    ctx.ob("JOIN-parallel", "mt:no-drain-await", not drains, "no await drains every task before looking at the results" if not drains else f"awaits {drains[0][2].split('::')[-1]} of the whole scope: the first error is reported only after every other task has finished (a task blocked on the failed one blocks the join forever)", site_of(b, drains[0][0]) if drains else site_of(b))
+    ctx.ob("JOIN-parallel", "mt:awaits-recognised", not unknown and bool(awaited), f"{len(awaited)} awaited call(s), all incremental" if not unknown and awaited else f"unrecognised awaited call {unknown[0][2] if unknown else '(none)'} in parallel_join (cannot tell whether the first error is returned promptly)", site_of(b, unknown[0][0]) if unknown else site_of(b))
+    nx = [a for a in awaited if a[2].endswith("StreamExt::next") or a[2].endswith("try_next")]
+    if nx:
+        bb, t, n, st = nx[0]
+        # blocks reachable from `ready` without passing a suspension point or the next() call again
+        seen, todo = set(), [st["ready"]]
+        while todo:
+            x = todo.pop()
+            if x in seen or x == bb:
+                continue
+            seen.add(x)
+            tt = b.term(x)
+            if tt["k"] == "yield":
+                continue
+            todo.extend(b.succs(x))
+        res = [x for x, t2 in flow.find_calls(b, re.compile(r"FromResidual::from_residual$")) if x in seen]
+        for x, idx, s_ in b.iter_assigns():
+            r_ = s_["r"]
+            if x in seen and r_["k"] == "agg" and r_.get("adt") == "std::result::Result" and r_.get("vn") == "Err":
+                res.append(x)
+        push = [x for x, t2 in flow.find_calls(b, re.compile(r"Vec::<T, A>::push$")) if x in seen]
+        pe = str(flow.expr_of(b, b.term(push[0])["args"][1])) if push else ""
+        ctx.ob("JOIN-parallel", "mt:error-returned-on-arrival", bool(res), "`?` is applied to each result before the next one is awaited" if res else "no error return between the arrival of a result and the next await: errors are only looked at after the loop", site_of(b, res[0]) if res else site_of(b, bb))
+        okp = bool(push) and "next" in pe and ("Try::branch" in pe or "as:Ok" in pe)
+        ctx.ob("JOIN-parallel", "mt:push-arrival-order", okp, "the Ok value of each arriving result is appended" if okp else "arriving results are not appended one by one to the output (order/completeness of the result vector is not by arrival)", site_of(b, push[0]) if push else site_of(b, bb))
